@@ -1741,7 +1741,10 @@ func ruleC17DrainAll(cx *Ctx) {
 		// nothing but "this ring is nil", "no table", and the loop's own bound stands between entry and the drain
 		bad := ""
 		for _, g := range guardsAt(in.Block()) {
-			if x, _, isNil := nilCmp(g.Cond); isNil && (x == ring || isTable(x)) {
+			if x, isEq, isNil := nilCmp(g.Cond); isNil && (x == ring || isTable(x)) {
+				if isEq == g.Truth {
+					bad = "the drain sits on the edge where the ring / table is nil (" + cx.P.where(g.If) + ")"
+				}
 				continue
 			}
 			if b, isB := g.Cond.(*ssa.BinOp); isB && (b.X == idx || b.Y == idx) {
@@ -1854,7 +1857,32 @@ func ruleC17DrainAll(cx *Ctx) {
 		bad := ""
 		for _, g := range guardsAt(r.Block()) {
 			if x, isEq, isNil := nilCmp(g.Cond); isNil && isTable(x) {
-				_ = isEq
+				if isEq == g.Truth {
+					continue // the edge on which there is no table
+				}
+				// with a table: fine after the walk - i.e. not reachable from the entry without passing one of the walk's
+				// own tests (the loop condition, or its pre-test on the table's length)
+				cut := map[edge]bool{}
+				for _, b := range fn.Blocks {
+					if len(b.Instrs) == 0 {
+						continue
+					}
+					i, isIf := b.Instrs[len(b.Instrs)-1].(*ssa.If)
+					if !isIf {
+						continue
+					}
+					if bo, isB := i.Cond.(*ssa.BinOp); isB {
+						_, _, _, indX := indexInduction(bo.X)
+						_, _, _, indY := indexInduction(bo.Y)
+						if isTableLen(bo.X) || isTableLen(bo.Y) || indX || indY {
+							cut[edge{b, 0}] = true
+							cut[edge{b, 1}] = true
+						}
+					}
+				}
+				if reachableBlocks(fn, cut)[r.Block()] {
+					bad = "returns although a stripe table exists (" + cx.P.where(g.If) + ")"
+				}
 				continue
 			}
 			if b, isB := g.Cond.(*ssa.BinOp); isB {
@@ -1992,4 +2020,17 @@ func ruleC05PolUnlink(cx *Ctx) {
 		a.flush()
 		cx.R.Check(n >= 3, rule, funcName(r.fn), "returning paths", cx.P.Pos(r.fn.Pos()), fmt.Sprintf("%d", n))
 	}
+}
+
+// returnsAfterWalk: the return is reached only after a loop of the function (its block is dominated by a loop header's
+// exit): the normal end of the walk.
+func returnsAfterWalk(r *ssa.Return) bool {
+	fn := r.Parent()
+	for h := range loopHeaders(fn) {
+		loop := naturalLoop(h)
+		if !loop[r.Block()] && h.Dominates(r.Block()) {
+			return true
+		}
+	}
+	return false
 }
